@@ -83,7 +83,11 @@ func (evt *endEvent) NextAction(ctx context.Context, flow Flow) chan IAction {
 	})
 
 	response := make(chan IAction, 1)
-	evt.mch <- nextActionMessage{response: response}
+	// the node's goroutine stops reading its inbox when the context is done
+	select {
+	case evt.mch <- nextActionMessage{response: response}:
+	case <-ctx.Done():
+	}
 	return response
 }
 
